@@ -1,8 +1,8 @@
 from common import COMMON_TB
 
 CFG = {
-    "technique": "Lean 4 theorems over a generic write-program model (all programs, states, fault positions) + extracted error-handling table of every write path (go/types) + exhaustive fault-position injection on the real code through a walletdb decorator, from states reached by random histories with forced targets (rollback of mined coinbases, confirmation of spenders of leased outputs)",
-    "level_text": "Error-or-full-effect, rollback-restores and retry are Lean theorems about every write program whose sites propagate errors / obey the memory-after-disk discipline; that the real call sites propagate is a generated fact decided in Lean without exception (C10_generated_sites_propagate, C10_generated_table_propagates; regenerated every run). Every mutating operation of wtxmgr.Store and waddrmgr.Manager/ScopedKeyManager runs on the real code with a failure injected at every write position, from states whose histories always hold coinbase transactions (spent and unspent credits) and a lease-then-spend prelude, with forced Rollback / InsertTx targets on them.",
+    "technique": "Lean 4 theorems over a generic write-program model (all programs, states, fault positions) + extracted error-handling table of every write path (go/types) + exhaustive fault-position injection on the real code through a walletdb decorator, from states reached by random histories with forced targets (rollback of mined coinbases, confirmation of spenders of leased outputs, removal/confirmation of one of two conflicting unconfirmed spenders of a wallet output); after a swallowed write failure the history is continued fault-free in both worlds to surface latent losses; queries after a failed operation run under a time limit",
+    "level_text": "Error-or-full-effect, rollback-restores and retry are Lean theorems about every write program whose sites propagate errors / obey the memory-after-disk discipline; that the real call sites propagate is a generated fact decided in Lean without exception (C10_generated_sites_propagate, C10_generated_table_propagates; regenerated every run). Every mutating operation of wtxmgr.Store and waddrmgr.Manager/ScopedKeyManager runs on the real code with a failure injected at every write position, from states whose histories always hold coinbase transactions (spent and unspent credits) a lease-then-spend prelude and a pair of conflicting unconfirmed spenders of one wallet output, with forced Rollback / InsertTx / RemoveUnminedTx targets on them.",
     "level_note": "Tie to the Go code: the extractor table (every wallet frame above a write must be an extracted site) plus exhaustive fault positions per (operation, state); the data effect of writes is abstract. Former exceptions are fixed in /repo: putAddrAccountIndex swallowed a failed write (277cb7d; the weaker *_partial table theorems and C10_putAddrAccountIndex_counterexample are kept), SetBirthday assigned memory before the write (974f36c). Open findings: the 15 memory-ahead-of-disk keys of waddrmgr in known-findings.txt (eager cache updates), not error propagation. Trusted: Lean kernel, extractor, faultdb decorator, walletdb.Update atomicity (C11), bbolt.",
     "lean_props": ["BtcwVerif.Props.C10"],
     "engines": ["faultops"],
